@@ -5,7 +5,7 @@ NOTES = ("Solver-based checking of the real code: z3 decides, per program skelet
 ENGINES = [
     {"name": "E4 leaf", "path": "vlib/xh.py", "kind_free_text":
         "CrossHair (symbolic execution of Python with z3) on generated harness modules: shape-concrete, data-symbolic; verdicts parsed per condition, counterexamples replayed concretely",
-     "serves_properties": ["C14", "C28", "C34"]},
+     "serves_properties": ["C14", "C16", "C28", "C34"]},
     {"name": "E5 shadow", "path": "vlib/sym.py + vlib/leaf.py", "kind_free_text":
         "proxy values over z3 terms (reals, log values, ints, strings) driven through the real functions by a DFS path driver; builtins shadowed as module globals",
      "serves_properties": ["C12"]},
@@ -86,4 +86,8 @@ CHECKS["C34"] = dict(engine="E4 leaf (CrossHair, vlib/xh.py)", category="other",
     technique="CrossHair symbolic execution (z3) of the real OrderedSet / UHeap / BitVector against executable abstract models, one condition per operation-kind sequence with symbolic items, keys and indices",
     text="Operation-kind sequences are enumerated (OrderedSet and BitVector: all of length <= 2 plus a seeded sample of length 3; UHeap: push/pop/peek sequences of length 2-5 over three items); items (3-element domain), heap keys ([0,3]) and bit indices (block-boundary points 0,31,32,63,64; single operations over [0,70)) are symbolic. After every operation the real container must agree with its model (iteration order, reversed order, length, membership, popped element; min-key extraction and non-decreasing drain order; set contents, len, truth value).",
     note="The order of the result of OrderedSet '&' is not asserted (collections.abc iterates the right operand); only its contents. 'Not confirmed' conditions (some 4-argument BitVector pairs) are inconclusive. Items/indices are concretised per path by an if-chain, so the solver enumerates value combinations of the stated finite domains.")
+CHECKS["C16"] = dict(engine="E4 leaf (CrossHair, vlib/xh.py + vlib/arith_ref.py)", category="other",
+    technique="CrossHair symbolic execution (z3 integers/reals) of the real arithmetic table (through compute_function), is/2, the comparison builtins and the term-inspection builtins per function and call mode, against a reference of the semantics Yap and SWI share",
+    text="Every entry of the arithmetic function table that has an agreed Prolog meaning is called with symbolic integer operands (|v| <= 10^6) and with dyadic floats n/8 (symbolic n), and compared - value and type - with an integer-arithmetic reference; errors must be ProbLog errors. Comparison builtins, is/2, between/3, succ/2, plus/3, length/2, arg/3, functor/3, =../2 and the type tests are driven in every supported call mode with symbolic numbers inside enumerated term shapes.",
+    note="About 40% of the conditions end 'Not confirmed' within the quick budget (CrossHair does not exhaust float paths and 10^6-wide integer ranges for every operator) and are reported inconclusive: for those the check is bug-hunting only. Not asserted: rem, int/int with /, ** on ints, negative shift counts/exponents, mixed-type min/max, transcendental functions. atom_number/2 on concrete atoms only. Known finding: is_list/1 on partial lists (pinned by the repo's tests).")
 NOT_APPLICABLE = {"C30": "check file exists (props/c30.py) but its triage is unfinished: it reports violations on the unchanged tree that have not been classified, so the property is not claimed"}
